@@ -9,7 +9,7 @@ THEOREMS = ["C05_Inv_wake_preserved", "C05_Inv_wake_every_history", "C05_snapsho
             "C05_never_late_never_lost", "C05_complete_run_wakes_at_deadline", "C05_futures_keep_invariant",
             "C05_composite_event_is_driver_event", "C05_woken_through_last_poller",
             "C05_composite_sleep_exact", "C05_composite_sleep_prefix", "C05_fragment_scripts_decode_ok",
-            "C05_removal_by_id_needs_distinct_ids", "C05_composite_reset_drop_exact", "C05_composite_timeout_sleep_exact",
+            "C05_removal_by_id_needs_distinct_ids", "C05_composite_reset_drop_exact", "C05_composite_timeout_sleep_exact", "C05_composite_interval_exact", "C05_composite_keepalive_select_exact", "C05_composite_select_exact",
             "C05_due_deadline_completes_immediately",
             "C05_timeout_ok_iff_inner_first", "C05_interval_ticks"]
 QUICK_N = 2500; THOROUGH_N = 150000
@@ -57,8 +57,9 @@ CLAIM = dict(
          "through the task that polled it last. The pinned next() (front slot only) is refuted in Coq by the history register a@5, drop a, "
          "register b@10, deactivate, the pinned never-refreshed waker by a hand-over script in which the receiving task never resumes. In the composite model (coq/Timer/Model.v: scripted tasks, FIFO executor, drivers, event set, waker table) every "
          "module event is proved to be one such driver event with a contract-respecting operation list, and for the fragment "
-         "{sleep, sleep_until, log, Sleep::reset / drop of a registered sleep, timeout(d, sleep x)} (finite durations) the composite is proved END TO END (C05_composite_sleep_exact, "
-         "C05_composite_reset_drop_exact, C05_composite_timeout_sleep_exact: Ok iff x <= d, returned exactly at now + min(x, d)): for every list of such tasks "
+         "{sleep, sleep_until, log, Sleep::reset / drop of a registered sleep, timeout(d, sleep x), interval new / tick / drop with all three missed-tick behaviours, the biased keep-alive select! of step 13 (C05_composite_keepalive_select_exact), select! over two sleeps (C05_composite_select_exact)} (finite durations) "
+         "the composite is proved END TO END (C05_composite_sleep_exact, C05_composite_reset_drop_exact, C05_composite_timeout_sleep_exact: Ok iff x <= d, returned exactly at "
+         "now + min(x, d); C05_composite_interval_exact: tick returns at max(now, nominal) with the nominal instant, next nominal instant by tick_next): for every list of such tasks "
          "(any number, both modules, spawned at start-up or by messages at any instants) the run ends, every task finishes and its "
          "log is exactly the list of deadlines the script prescribes, using C01's event-set specification for the fetch order. "
          "For the remaining steps the COMPOSITION of these layers with the task executor and the event set is validated, not proved: on every invocation scripted async modules (sleep, sleep_until, timeout, interval with all three "
